@@ -59,6 +59,8 @@ class Interp:
         self.line_hits = set()
         self.prints = 0
         self.spec_uses = set()
+        from . import intrinsics
+        self.intrinsics = intrinsics.INTRINSICS
         self.ctx = core.Ctx(core.Explorer(self), [])
 
     # ------------------------------------------------------------------ loading
@@ -220,7 +222,7 @@ class Interp:
 
     # ------------------------------------------------------------------ helpers
     def new_list(self, items, is_tuple=False):
-        b = AList(Conc(self, items), is_tuple=is_tuple)
+        b = AList(core.mk_conc(self, items), is_tuple=is_tuple)
         b.owner = id(self.ctx)
         return b
 
@@ -580,7 +582,7 @@ class Interp:
                 its = self.try_iter_concrete(v)
                 if its is None:
                     if out:
-                        abstract_parts.append(Conc(self, out))
+                        abstract_parts.append(core.mk_conc(self, out))
                         out = []
                     abstract_parts.append(v.term)
                 else:
@@ -589,8 +591,8 @@ class Interp:
                 out.append(self.eval(e, env))
         if abstract_parts:
             if out:
-                abstract_parts.append(Conc(self, out))
-            return self.new_alist(Concat(self, abstract_parts, self.bm.etype_of_term(self, abstract_parts[0])))
+                abstract_parts.append(core.mk_conc(self, out))
+            return self.new_alist(core.mk_concat(self, abstract_parts, self.bm.etype_of_term(self, abstract_parts[0])))
         return self.new_list(out)
 
     def ex_Dict(self, node, env):
@@ -709,6 +711,8 @@ class Interp:
                     if rb is not None:
                         merged = z3.And(cb, rb) if is_and else z3.Or(cb, rb)
                 except (Unsupported, Raise):
+                    if snap:
+                        raise
                     merged = None
                 finally:
                     self.ctx.pure_depth = snap
@@ -979,6 +983,9 @@ class Interp:
         return local
 
     def call_function(self, f, args, kwargs, force_body=False):
+        intr = self.intrinsics.get(f.qualname)
+        if intr is not None:
+            return intr(self, args, kwargs)
         # modular: a function under contract is replaced by its spec at call sites
         if self.registry is not None and self.use_specs and not force_body and isinstance(f.node, ast.FunctionDef):
             spec = self.registry.spec_for_call(self, f)
@@ -1020,8 +1027,14 @@ class Interp:
     # ------------------------------------------------------------------ misc models
     def strip_of(self, s):
         """str.strip() on a symbolic string: uninterpreted, idempotent (A4)"""
+        ctx = self.ctx
+        if not getattr(ctx, "_strip_ax", False):
+            ctx._strip_ax = True
+            v = z3.String("?s")
+            ctx.assume(z3.ForAll([v], self.strip_fn(self.strip_fn(v)) == self.strip_fn(v),
+                                 patterns=[self.strip_fn(self.strip_fn(v))]))
         r = self.strip_fn(s)
-        self.ctx.assume(self.strip_fn(r) == r)
+        ctx.assume(self.strip_fn(r) == r)
         return r
 
     def rnd(self, expr):
